@@ -4,6 +4,7 @@ from ._floorprop import FloorProp
 class C11(FloorProp):
     id = 'C11'
     profile = 'c11'
+    crash_every = 5
     design_ref = 'DESIGN.md section 4 / C11'
     budgets = {'quick': 8000, 'thorough': 300000}
 
